@@ -70,7 +70,7 @@ func runC20(c *Ctx) {
 			continue
 		}
 		for _, call := range w.callsInDeep(fn) {
-			switch calleeName(call) {
+			switch condOpName(w, fn, call) {
 			case "(*sync.Cond).Wait":
 				waitFn = fn
 			case "(*sync.Cond).Broadcast", "(*sync.Cond).Signal":
@@ -122,7 +122,7 @@ func runC20(c *Ctx) {
 			if !okNil {
 				continue
 			}
-			for _, lf := range w.Leaves(r.Results[0], r) {
+			for _, lf := range w.LeavesErr(r.Results[0], r) {
 				if !isNilConst(lf.Val) {
 					okNil = false
 				}
@@ -134,6 +134,9 @@ func runC20(c *Ctx) {
 		}
 		for _, call := range w.callsInDeep(fn) {
 			nm := calleeName(call)
+			if cn := condOpName(w, fn, call); cn != "" {
+				nm = cn
+			}
 			if strings.HasPrefix(nm, "(*sync.Cond).") || strings.HasSuffix(nm, "sync.Locker).Lock") {
 				if _, isDefer := call.(*ssa.Defer); isDefer {
 					continue
@@ -161,7 +164,7 @@ func runC20(c *Ctx) {
 	checkCondUse(c, m, waitFn, "(*sync.Cond).Wait", true)
 	checkCondUse(c, m, bcastFn, "(*sync.Cond).Broadcast", false)
 	for _, call := range w.callsInDeep(bcastFn) {
-		if calleeName(call) == "(*sync.Cond).Signal" {
+		if condOpName(w, bcastFn, call) == "(*sync.Cond).Signal" {
 			c.Bad("R2.cond", bcastFn.Name()+"|Broadcast not Signal", w.Pos(call.Pos()), "Cond.Signal wakes a single waiter: the other clients waiting for the same code stay blocked")
 		}
 	}
@@ -480,7 +483,7 @@ func checkCondUse(c *Ctx, m *shimModel, fn *ssa.Function, method string, needLoc
 	n := 0
 	w.Focus(fn)
 	for _, call := range w.callsInDeep(fn) {
-		if calleeName(call) != method {
+		if condOpName(w, fn, call) != method {
 			continue
 		}
 		if _, isDefer := call.(*ssa.Defer); isDefer {
@@ -766,4 +769,32 @@ func c20BroadcastPrecedes(w *World, wire *wireView, serve *ssa.Function, bc *ssa
 		return false, ": no arm work found"
 	}
 	return true, ""
+}
+
+// condOpName: the sync.Cond operation that call performs when it is reached from root: a static call of a Cond method,
+// or a call of a function-valued parameter of a helper on root's tree that root's own call of the helper binds to a
+// Cond method expression (Wait and Broadcast sharing withCond(msg, (*sync.Cond).Wait)). "" otherwise.
+func condOpName(w *World, root *ssa.Function, call ssa.CallInstruction) string {
+	n := calleeName(call)
+	if strings.HasPrefix(n, "(*sync.Cond).") {
+		return n
+	}
+	if n != "dynamic" {
+		return ""
+	}
+	p, ok := call.Common().Value.(*ssa.Parameter)
+	if !ok {
+		return ""
+	}
+	h := p.Parent()
+	sites := w.sitesIn(root, h)
+	if len(sites) != 1 || paramIndex(p) >= len(sites[0].Common().Args) {
+		return ""
+	}
+	if f, ok := throughCell(strip(sites[0].Common().Args[paramIndex(p)])).(*ssa.Function); ok {
+		if fn := fnName(f); strings.HasPrefix(fn, "(*sync.Cond).") {
+			return fn
+		}
+	}
+	return ""
 }
